@@ -1,4 +1,4 @@
-from casadi import if_else, logic_and
+from casadi import if_else, logic_and, logic_or
 
 
 class BSpline:
@@ -18,7 +18,13 @@ class BSpline:
             the given point.
         """
         if k == 0:
-            return if_else(logic_and(t[i] <= x, x < t[i + 1]), 1.0, 0.0)
+            inside = logic_and(t[i] <= x, x < t[i + 1])
+            if t[i] < t[i + 1] and t[i + 1] == t[-1]:
+                # The last non-empty knot interval is closed on the right, so that the
+                # spline can be evaluated at the end of its knot range (e.g. at the
+                # largest tabulated point of a lookup table).
+                inside = logic_or(inside, x == t[-1])
+            return if_else(inside, 1.0, 0.0)
         else:
             if t[i] < t[i + k]:
                 a = (x - t[i]) / (t[i + k] - t[i]) * self.basis(t, x, k - 1, i)
